@@ -291,6 +291,9 @@ func (c01Oracle) OnReq(c *tableCtx, op *Op, o *Obs) *Violation {
 	mk := func(oracle, sig, detail string) *Violation {
 		return &Violation{Prop: "C01", Oracle: oracle, Sig: sig, Detail: fmt.Sprintf("%s -> %s | %s", q, o.Key(), detail)}
 	}
+	if o.Panic == "nontermination" {
+		return mk("terminates", "non-termination", "the request executed more than 3M statements without answering")
+	}
 	if o.Panic != "" || o.Zero || o.Called == 0 {
 		return nil // crashes are C05's subject
 	}
